@@ -236,7 +236,10 @@ def _dispatch(U, name, a):
         if a["key"] & 4:
             kw["predecessors"] = [T(x) for x in a["seq3"]]
         try:
-            U.tasks[t - 1] = pj.Task(old.id, name=old.name, prio=old.prio, mix=old.mix, **kw)
+            if via == 1:        # the same through Task.clone(parent=, children=, ...): a copy with relations
+                U.tasks[t - 1] = old.clone(**kw)
+            else:
+                U.tasks[t - 1] = pj.Task(old.id, name=old.name, prio=old.prio, mix=old.mix, **kw)
         except BaseException:
             # a half-built object may have stayed attached to universe tasks: it IS task t now
             z = _find_stranger(U)
@@ -468,6 +471,14 @@ def alphabet(N, W, L=2, ids=None, level=2, light=False):
                     A.append(act("New", t=t, n=p, key=1, seq=s1))
                     A.append(act("New", t=t, n=p, key=2, seq2=s1))
                     A.append(act("New", t=t, n=p, key=4, seq3=s1))
+            # Task.clone(**relations) builds its copy the same way
+            for p in others:
+                A.append(act("New", t=t, n=p, via=1))
+                for s1 in [[x] for x in others]:
+                    A.append(act("New", t=t, n=p, key=4, seq3=s1, via=1))
+            for s1 in [[x] for x in others]:
+                A.append(act("New", t=t, key=1, seq=s1, via=1))
+                A.append(act("New", t=t, key=2, seq2=s1, via=1))
             for s1 in [[x] for x in others]:
                 for s2 in [[x] for x in others]:
                     A.append(act("New", t=t, key=3, seq=s1, seq2=s2))
